@@ -21,7 +21,7 @@ THEOREMS = [
     "quote_injective", "key_injective", "cachedPath_injective",
     "test_pkg_never_cached", "stale_is_miss", "damage_is_miss", "missing_is_miss", "load_sound", "store_then_load",
     "crash_atomic", "temp_ne_final", "failed_store_keeps_final", "load_provenance",
-    "adhoc_never_loaded", "load_depends_only_on_envelope", "load_hit_is_exact_seal", "damaged_never_fresh",
+    "adhoc_never_loaded", "store_preserves_input", "inplace_filter_damages_input", "load_depends_only_on_envelope", "load_hit_is_exact_seal", "damaged_never_fresh",
     # repaired defects: the old path.Join key scheme and path.Clean
     "clean_idempotent", "clean_rooted_no_dot_elements", "clean_id_of_good",
     "old_key_injective_counterexample", "old_key_injective_tags_counterexample", "old_key_injective_partial",
@@ -697,6 +697,135 @@ def run_file_mode(chk, tier):
                               "note": "gopherjs run x.go uses the same Session.BuildFiles with a temp output path"}
 
 
+def gen_comment_project(rng, mod):
+    """A three-package project (main -> lib -> other) whose files carry comments of every kind: free-floating groups
+    before/between/after declarations and inside bodies, doc comments with //go:linkname directives (lib links to
+    unexported functions of `other`, so a lost or duplicated directive changes the JavaScript), one free-floating
+    //go:linkname, //gopherjs: directive comments, field/spec doc and line comments. Returns {relative path: text}."""
+    files = {}
+    nimpl = rng.randrange(3, 6)
+
+    def floating(tag):
+        k = rng.random()
+        if k < 0.4:
+            return "// floating %s %d\n\n" % (tag, rng.randrange(1000))
+        if k < 0.7:
+            return "/* block %s\n   %d */\n\n" % (tag, rng.randrange(1000))
+        return "// floating %s, line 1\n// line 2 of %d\n\n" % (tag, rng.randrange(1000))
+
+    other = ["// Copyright header of other (free-floating).\n\n", "// Package other owns the implementations.\npackage other\n\n",
+             floating("after-package"), "var calls int // trailing comment of a spec\n\n"]
+    for i in range(nimpl + 1):
+        other.append(rng.choice(["", floating("between")]))
+        other.append("// impl%d is reached only through go:linkname.\nfunc impl%d() int {\n\t// inside body %d\n\tcalls++\n\treturn %d + calls\n}\n\n"
+                     % (i, i, i, rng.randrange(10, 99)))
+    other.append("// floating at end of file\n")
+    files["other/other.go"] = "".join(other)
+    split = rng.randrange(1, nimpl)
+    for fname, idxs in (("a.go", range(0, split)), ("b.go", range(split, nimpl))):
+        lib = [rng.choice(["// License header of lib/%s (free-floating).\n\n" % fname, ""]),
+               "// Package lib links to package other.\npackage lib\n\n",
+               "import (\n\t_ \"unsafe\" // for go:linkname\n\n\t// doc comment of an import spec\n\t_ \"%s/other\"\n)\n\n" % mod]
+        for i in idxs:
+            for _ in range(rng.randrange(0, 3)):
+                lib.append(floating("before-link%d" % i))
+            doc = rng.choice(["", "// link%d is implemented in package other.\n" % i, "// first line\n//\n"])
+            lib.append("%s//go:linkname link%d %s/other.impl%d\nfunc link%d() int\n\n" % (doc, i, mod, i, i))
+            lib.append("// Get%d returns the linked value.\n//\n//gopherjs:keep-original\nfunc Get%d() int {\n\t// floating inside Get%d\n\tv := link%d() // trailing\n"
+                       "\n\t// another floating group\n\tif v < 0 {\n\t\t/* nested block comment */\n\t\tv = -v\n\t}\n\treturn v\n}\n\n" % (i, i, i, i))
+        if fname == "a.go":
+            lib.append("// T has documented fields.\ntype T struct {\n\t// A is documented.\n\tA int // and has a line comment\n\n\t// floating inside the struct\n\n\tB int\n}\n\n")
+            # a free-floating directive: the blank line detaches it from the declaration
+            lib.append("//go:linkname floatlink %s/other.impl%d\n\nfunc floatlink() int\n\n// GetF uses the floating directive.\nfunc GetF() int { return floatlink() }\n\n"
+                       % (mod, nimpl))
+        for _ in range(rng.randrange(1, 4)):
+            lib.append(floating("tail"))
+        files["lib/" + fname] = "".join(lib)
+    calls = ", ".join(["lib.Get%d()" % i for i in range(nimpl)] + ["lib.GetF()", "extra()"])
+    files["main.go"] = ("// Header of main (free-floating).\n\n// Command main prints the linked values.\npackage main\n\nimport \"%s/lib\"\n\n"
+                        "// floating before main\n\n// main is the entry point.\nfunc main() {\n\t// floating in main\n\tprintln(\"%s\", %s)\n"
+                        "\t_ = lib.T{A: 1}\n}\n\n// floating after main\n" % (mod, mod, calls))
+    files["util.go"] = "package main\n\n%s// extra is documented.\nfunc extra() int {\n\treturn %d // trailing\n}\n" % (floating("util"), rng.randrange(100))
+    return files
+
+
+def run_comments(chk, tier):
+    """(1) no cache == cold cache (the build that STORES) == warm cache, byte for byte, for generated multi-package projects
+    full of comments and go:linkname directives; (2) `Store is read-only on its argument`: the real Sources.Write and
+    BuildCache.Store leave the in-memory package (Comments lists, attached groups, imports, printed source, parsed
+    linknames) unchanged."""
+    nproj = 6 if tier == "thorough" else 2
+    work = C.scratch("gv-c20-c")
+    gopath = os.path.join(work, "gopath")
+    env = {"GOPATH": gopath, "GO111MODULE": "off", "GOFLAGS": ""}     # multi-package programs resolve in GOPATH mode in process
+    res = {}
+    try:
+        dirs = []
+        for k in range(nproj):
+            mod = "gvc20gen%d" % k
+            root = os.path.join(gopath, "src", mod)
+            files = gen_comment_project(chk.rng, mod)
+            for rel, text in files.items():
+                os.makedirs(os.path.dirname(os.path.join(root, rel)), exist_ok=True)
+                open(os.path.join(root, rel), "w").write(text)
+                os.utime(os.path.join(root, rel), (1_600_000_000, 1_600_000_000))
+            dirs += [root, os.path.join(root, "lib"), os.path.join(root, "other")]
+            xdg = os.path.join(work, "xdg-gv%d" % k)
+            os.makedirs(xdg)
+            e = dict(env)
+            e["XDG_CACHE_HOME"] = xdg
+
+            def build(mode):
+                p = run_gvh(["build", root, mode], extra_env=e, timeout=600)
+                if p.returncode != 0:
+                    raise RuntimeError("gvh_c20 build failed: " + p.stderr[-2000:])
+                return parse_build(p.stdout.strip().split("\n")[-1])
+
+            ref, cold, warm = build("nocache"), build("cache"), build("cache")
+            if "error" in ref:
+                raise RuntimeError("generated project does not build without cache: %s\n%s" % (ref, files["lib/a.go"]))
+            res[mod] = {"ref": ref["sha256"][:16], "cold_stored": cold.get("stored"), "warm_hits": warm.get("hits")}
+            src = "\n".join("== %s\n%s" % kv for kv in sorted(files.items()))
+            for stage, r in (("cold", cold), ("warm", warm)):
+                op = "comments project=%s stage=%s (no cache vs %s cache, JS sha256)" % (mod, stage, stage)
+                chk.add_case("transparency", op, True, "comments:%s" % stage)
+                a = r.get("sha256") or "error:" + r.get("error", "?")[:300]
+                if a != ref["sha256"]:
+                    chk.add_mismatch("transparency", op + "\n" + src, "%s bytes=%s" % (a, r.get("bytes")),
+                                     "%s bytes=%s" % (ref["sha256"], ref.get("bytes")),
+                                     signature="C20 transparency %s-cache-build-differs-from-no-cache-build" % stage)
+            if int(warm.get("hits", 0) or 0) < 4 and "error" not in warm:
+                chk.add_mismatch("transparency", "comments project=%s warm build" % mod, "hits=%s" % warm.get("hits"),
+                                 "the packages stored by the cold build are hit", signature="C20 warm-build-does-not-hit")
+        goroot = subprocess.run(["go", "env", "GOROOT"], env=C.env(), capture_output=True, text=True).stdout.strip()
+        dirs += [os.path.join(goroot, "src", d) for d in ("unicode/utf8", "math/bits", "sync/atomic", "container/list")]
+        dirs.append(os.path.join(C.REPO, "compiler", "natives", "src", "runtime"))
+        e = dict(env)
+        e["XDG_CACHE_HOME"] = os.path.join(work, "xdg-gvp")
+        os.makedirs(e["XDG_CACHE_HOME"])
+        p = run_gvh(["writeprobe"] + dirs, extra_env=e, timeout=600)
+        if p.returncode != 0:
+            raise RuntimeError("gvh_c20 writeprobe failed: " + p.stderr[-2000:])
+        nprobe = 0
+        for ln in p.stdout.strip().split("\n"):
+            _, name, outcome = ln.split(" ", 2)
+            if outcome.startswith("error:"):
+                raise RuntimeError("writeprobe: %s" % ln)
+            nprobe += 1
+            op = "writeprobe %s: Sources.Write + BuildCache.Store must leave the in-memory package unchanged" % name.replace(work, "")
+            chk.add_case("store-read-only", op, True, "writeprobe:" + outcome.split()[0])
+            if not outcome.startswith("unchanged"):
+                src = ""
+                if name.startswith(gopath):
+                    src = "\n" + "\n".join("== %s\n%s" % (f, open(os.path.join(name, f)).read()) for f in sorted(os.listdir(name)) if f.endswith(".go"))
+                chk.add_mismatch("store-read-only", op + src, outcome[:600], "unchanged",
+                                 signature="C20 store-modifies-the-package-being-stored")
+        res["writeprobe_packages"] = nprobe
+    finally:
+        shutil.rmtree(work, ignore_errors=True)
+    chk.extra["comment_projects"] = res
+
+
 def run_transparency(chk, tier):
     variants = [("plain", PROG.replace("SEED", str(chk.rng.randrange(1000))), [])]
     if tier == "thorough":
@@ -819,7 +948,9 @@ def run(tier, seed):
                 "that compile here built without cache, with a cold cache, a warm cache (fresh process), truncated entries; FILE-ARGUMENT "
                 "mode (Session.BuildFiles, ad-hoc package \"main\"): sequences a,b / b,a / a,b,a over single-file programs in different and "
                 "in the same directory, fresh sessions sharing one cache, file mtimes older/newer than the entries, each build == "
-                "no-cache build of the same file. A case "
+                "no-cache build of the same file; generated three-package projects (GOPATH mode) full of free-floating / doc / line comments, "
+                "//go:linkname directives in doc comments and free-floating, //gopherjs: directives: no cache == cold (storing) build == "
+                "warm build byte for byte; writeprobe: real Sources.Write + Store leave the in-memory package unchanged. A case "
                 "is non-trivial when its op line is distinct.")
     chk.trusted = ["Lean 4.33 kernel; axioms at most propext, Classical.choice, Quot.sound (listed per theorem)",
                    "GV.Model.Cache / GV.Model.PathClean are hand transcriptions of build/cache/cache.go and GOROOT/src/path/path.go, "
@@ -841,7 +972,7 @@ def run(tier, seed):
     phases = {}
     cpu = {}
     only = os.environ.get("VERIF_C20_PHASES")     # development aid: comma-separated subset of phase names
-    for f in (run_string_ties, run_key_ties, run_faults, run_crash, run_transparency, run_file_mode):
+    for f in (run_string_ties, run_key_ties, run_faults, run_crash, run_transparency, run_file_mode, run_comments):
         if only and f.__name__[4:] not in only.split(","):
             continue
         t0 = time.time()
